@@ -12,6 +12,9 @@ package gocql
 import (
 	"bufio"
 	"context"
+
+	"github.com/gocql/gocql/internal/lru"
+
 	"encoding/json"
 	"errors"
 	"fmt"
@@ -40,6 +43,11 @@ type vfC11World struct {
 	Strat     string   `json:"strat"`
 	Rfdc      []string `json:"rfdc"`
 	Rfn       []int    `json:"rfn"`
+	// a second keyspace ("vfks2") with its own replication, "none" if there is none: statements on its
+	// tables get their keyspace from the prepared-statement information, not from the session
+	Strat2 string   `json:"strat2"`
+	Rfdc2  []string `json:"rfdc2"`
+	Rfn2   []int    `json:"rfn2"`
 }
 
 type vfC11Op struct {
@@ -48,7 +56,8 @@ type vfC11Op struct {
 }
 
 type vfC11Group struct {
-	Q       int     `json:"q"` // abstract routing token, -1 = no routing key
+	Q       int     `json:"q"`  // abstract routing token, -1 = no routing key
+	Ks      int     `json:"ks"` // 1: statement on the session's keyspace, 2: on the second keyspace
 	K       int     `json:"k"`
 	Picks   [][]int `json:"picks"`
 	Capped  []bool  `json:"capped"`
@@ -121,6 +130,8 @@ type vfC11Env struct {
 	policy HostSelectionPolicy
 	ta     *tokenAwareHostPolicy
 	ksOn   atomic.Bool
+	ks2On  atomic.Bool
+	sess   *Session // stub: default keyspace "vfks", routing key information of two statements cached
 
 	// gate inside the keyspace-metadata callback: when armed, the next call of the callback parks
 	// (signals parked, waits for release) - used to overlap two update calls
@@ -160,11 +171,21 @@ func vfC11New(w *vfC11World) *vfC11Env {
 		e.policy = TokenAwareHostPolicy(base, opts...)
 		e.ta = e.policy.(*tokenAwareHostPolicy)
 		ks := vfC10Keyspace(c)
+		var ks2 *KeyspaceMetadata
+		if w.Strat2 != "" && w.Strat2 != "none" {
+			c2 := *c
+			c2.Strat, c2.RfDc, c2.RfN = w.Strat2, w.Rfdc2, w.Rfn2
+			ks2 = vfC10Keyspace(&c2)
+			ks2.Name = "vfks2"
+		}
 		e.ta.getKeyspaceName = func() string { return "vfks" }
 		e.ta.getKeyspaceMetadata = func(name string) (*KeyspaceMetadata, error) {
 			if e.gateArmed.CompareAndSwap(true, false) {
 				close(e.parked)
 				<-e.release
+			}
+			if name == "vfks2" && ks2 != nil && e.ks2On.Load() {
+				return ks2, nil
 			}
 			if !e.ksOn.Load() || name != "vfks" {
 				return nil, errors.New("vf: keyspace metadata not available")
@@ -196,6 +217,9 @@ func (e *vfC11Env) apply(op vfC11Op) {
 		h.setState(NodeDown)
 	case "setpart":
 		e.policy.SetPartitioner("org.apache.cassandra.dht.OrderedPartitioner")
+	case "ks2":
+		e.ks2On.Store(true)
+		e.policy.KeyspaceChanged(KeyspaceUpdateEvent{Keyspace: "vfks2", Change: "UPDATED"})
 	case "ks":
 		e.ksOn.Store(true)
 		e.policy.KeyspaceChanged(KeyspaceUpdateEvent{Keyspace: "vfks", Change: "UPDATED"})
@@ -294,6 +318,33 @@ func (e *vfC11Env) burst(ops []vfC11Op) (pmsg string) {
 	return pmsg
 }
 
+var vfC11Stmts = map[int]string{1: "SELECT v FROM vfks.t WHERE k = ?", 2: "SELECT v FROM vfks2.t WHERE k = ?"}
+
+// queryKs returns the query for routing token q of a statement on keyspace ks (1 | 2).  In worlds with
+// a second keyspace it is a real, fresh *Query of a stub session (default keyspace "vfks"): routing key
+// and keyspace are derived by GetRoutingKey from the bound value and the cached prepared-statement
+// information, as for session.Query(stmt, value).
+func (e *vfC11Env) queryKs(q, ks int) ExecutableQuery {
+	if q < 0 || e.w.Strat2 == "" || e.w.Strat2 == "none" {
+		return e.query(q)
+	}
+	if e.sess == nil {
+		s := &Session{}
+		s.cfg.Keyspace = "vfks"
+		s.routingKeyInfoCache.lru = lru.New(10)
+		for k, name := range map[int]string{1: "vfks", 2: "vfks2"} {
+			s.routingKeyInfoCache.lru.Add(vfC11Stmts[k], &inflightCachedEntry{value: &routingKeyInfo{
+				indexes: []int{0}, types: []TypeInfo{NativeType{proto: 4, typ: TypeVarchar}}, keyspace: name, table: "t"}})
+		}
+		e.sess = s
+	}
+	if ks != 2 {
+		ks = 1
+	}
+	return &Query{stmt: vfC11Stmts[ks], values: []interface{}{vfC10Tok("OrderedPartitioner", q)}, session: e.sess,
+		routingInfo: &queryRoutingInfo{}}
+}
+
 func (e *vfC11Env) query(q int) ExecutableQuery {
 	if q < 0 {
 		return &vfC11Query{}
@@ -320,7 +371,9 @@ func (e *vfC11Env) drain(next NextHost) (seq []int, capped bool) {
 }
 
 // realReplicas reads the replica list the token aware policy itself holds for q.
-func (e *vfC11Env) realReplicas(q int) (ids []int) {
+func (e *vfC11Env) realReplicas(q int) (ids []int) { return e.realReplicasKs(q, 1) }
+
+func (e *vfC11Env) realReplicasKs(q, ks int) (ids []int) {
 	ids = []int{}
 	defer func() { recover() }()
 	if e.ta == nil || q < 0 {
@@ -331,7 +384,11 @@ func (e *vfC11Env) realReplicas(q int) (ids []int) {
 		return
 	}
 	tok := meta.tokenRing.partitioner.Hash([]byte(vfC10Tok("OrderedPartitioner", q)))
-	if ht := meta.replicas["vfks"].replicasFor(tok); ht != nil {
+	name := "vfks"
+	if ks == 2 {
+		name = "vfks2"
+	}
+	if ht := meta.replicas[name].replicasFor(tok); ht != nil {
 		ids = vfC10Ids(e.idx, ht.hosts)
 	}
 	return
@@ -347,6 +404,16 @@ func vfC11PanicClass(msg, dflt string) string {
 // vfC11Run replays the history and the pick groups of one case on fresh real objects.
 func vfC11Run(c *vfC11Case) (v vfC11Vector) {
 	v = vfC11Vector{ID: c.ID, W: c.W, Hist: c.Hist, Groups: []vfC11Group{}, PClass: "none", Il: []vfC11Il{}}
+	if c.W.Strat2 == "" {
+		c.W.Strat2 = "none"
+	}
+	if c.W.Rfdc2 == nil {
+		c.W.Rfdc2 = []string{}
+	}
+	if c.W.Rfn2 == nil {
+		c.W.Rfn2 = []int{}
+	}
+	v.W = c.W
 	e := vfC11New(&c.W)
 	for i := 0; i < len(c.Hist); i++ {
 		op := c.Hist[i]
@@ -391,7 +458,10 @@ func vfC11Run(c *vfC11Case) (v vfC11Vector) {
 		}
 	}
 	for gi, g := range c.Groups {
-		out := vfC11Group{Q: g.Q, K: g.K, Picks: [][]int{}, Capped: []bool{}, Realrep: e.realReplicas(g.Q)}
+		if g.Ks == 0 {
+			g.Ks = 1
+		}
+		out := vfC11Group{Q: g.Q, Ks: g.Ks, K: g.K, Picks: [][]int{}, Capped: []bool{}, Realrep: e.realReplicasKs(g.Q, g.Ks)}
 		func() {
 			defer func() {
 				if r := recover(); r != nil {
@@ -401,7 +471,7 @@ func vfC11Run(c *vfC11Case) (v vfC11Vector) {
 				}
 			}()
 			for k := 0; k < g.K; k++ {
-				seq, capped := e.drain(e.policy.Pick(e.query(g.Q)))
+				seq, capped := e.drain(e.policy.Pick(e.queryKs(g.Q, g.Ks)))
 				out.Picks = append(out.Picks, seq)
 				out.Capped = append(out.Capped, capped)
 			}
@@ -595,6 +665,7 @@ func vfC11RandomWorld(rnd *rand.Rand, maxHosts, maxVnodes int) vfC11World {
 	}
 	ks := vfC11Keyspaces[rnd.Intn(len(vfC11Keyspaces))]
 	w.Strat, w.Rfdc, w.Rfn = ks.strat, ks.dcs, ks.rfs
+	w.Strat2, w.Rfdc2, w.Rfn2 = "none", []string{}, []int{}
 	return w
 }
 
@@ -1006,7 +1077,7 @@ func TestVfC11Executor(t *testing.T) {
 		watch.mu.Lock()
 		offered := append([]int{}, watch.offered...)
 		watch.mu.Unlock()
-		v.Groups = []vfC11Group{{Q: q, K: 1, Picks: [][]int{offered}, Capped: []bool{atomic.LoadInt32(&qry.live) != 0}, Realrep: realrep}}
+		v.Groups = []vfC11Group{{Q: q, Ks: 1, K: 1, Picks: [][]int{offered}, Capped: []bool{atomic.LoadInt32(&qry.live) != 0}, Realrep: realrep}}
 		v.Xov = int(atomic.LoadInt32(&watch.overlaps))
 		if err := enc.Encode(v); err != nil {
 			t.Fatal(err)
